@@ -67,7 +67,11 @@ for _an in ARR1D:
 IOPS = {an: [k for k in ("__iadd__", "__isub__") if k in getattr(imath, an).__dict__] for an in ARR1D}
 ANY_IOPS = {an: sorted(k for k in getattr(imath, an).__dict__ if k.startswith("__i") and k not in ("__init__", "__iter__", "__instance_size__"))
             for an in ARR1D}
-DEFAULTS = {an: tuple(PT.ARRAYS[an].flat(getattr(imath, an)(1)[0])) for an in ARR1D}   # learned, see DESIGN (assumption)
+DEFAULTS = {}                                                                          # learned, see DESIGN (assumption)
+for _an in ARR1D:
+    _a = getattr(imath, _an)(1)         # (kept alive while its element is read: the start-up tables must not be the place
+    DEFAULTS[_an] = tuple(PT.ARRAYS[_an].flat(_a[0]))   #  where a lifetime defect of the code under test shows)
+    del _a
 
 INT_WRAP = {"i8": (8, True), "u8": (8, False), "i16": (16, True), "u16": (16, False), "i32": (32, True), "u32": (32, False),
             "i64": (64, True), "b": (1, False)}
